@@ -13,6 +13,10 @@ instance (c : Ctl) (v : Pod) : Decidable (PodGood c v) := by
   unfold PodGood
   cases findPod c.pods v.ns v.name <;> exact inferInstance
 
+instance (c : Ctl) (v : Pod) : Decidable (PodLabelGood c v) := by
+  unfold PodLabelGood
+  cases findPod c.pods v.ns v.name <;> exact inferInstance
+
 instance (c : Ctl) (ns name : String) : Decidable (PodDelGood c ns name) := by
   unfold PodDelGood; exact inferInstance
 
